@@ -8,7 +8,7 @@ def regenerate(lean_dir):
     info["tables"] = tables.regenerate(lean_dir)
     try:
         from . import regen as effects_regen       # delivered by the write-effect extractor
-        info["effects"] = effects_regen.regenerate(lean_dir)
+        info["effects"] = effects_regen.regenerate(lean_dir, repo=os.environ.get("AQV_REPO", "/repo"))
     except ImportError:
         info["effects"] = None
     return info
